@@ -77,6 +77,7 @@ class OnCurve:
 
 @contract(f"{E}::EcCurve.Multiply")
 class Multiply:
+  frame_props = ["C02", "C06", "C10", "C11"]
   """Scalar multiplication: the double-and-add loop over Jacobian coordinates is covered by C11 (ring identities for the
   formulas + bounded exhaustive on small curves).  Callers use the abstract group view: the result is a well-formed
   point that is a function of (curve, p, n)."""
@@ -154,22 +155,69 @@ macro("is_dlog", ["c", "d", "px", "py"], "(d - dlog(c, px, py)) % c.n == 0")
 
 @contract(f"{E}::EcCurve.PointSequence")
 class PointSequence:
+  frame_props = ["C10", "C11"]
   params = {"base": "point", "n": "int"}
   self_fields = CURVE_FIELDS
   returns = "list[point]"
   assumed = True
   assumed_why = "group arithmetic: bounded tier bounded/c11.py point_sequence_and_table (exhaustive on small curves)"
-  ensures = ["len(result) == max(n, 0)"]
+  ensures = ["len(result) == max(n, 0)", "forall(k, 0, len(result), wf_point(result[k]))"]
+
+
+@contract(f"{E}::EcCurve.BatchInverse")
+class BatchInverse:
+  """Shape only (one slot per input); the inverses themselves are decided by bounded/c11.py batch_inverse."""
+  params = {"values": "list[Optional[int]]"}
+  self_fields = CURVE_FIELDS
+  returns = "list[Optional[int]]"
+  requires = CURVE_REQ
+  raises = {"ArithmeticError": None}
+  ensures = [("C10,C11,C17", "len(result) == len(values)")]
+  loops = {0: dict(invariant=["len(res) == len(values)"], types={"res": "list[Optional[int]]", "product": "int"}),
+           1: dict(invariant=["len(res) == len(values)"], types={"res": "list[Optional[int]]", "inverse": "int"})}
+  var_types = {"res": "list[Optional[int]]"}
+  props = ["C10", "C11", "C17"]
+
+
+@contract(f"{E}::EcCurve.BatchAddX")
+class BatchAddX:
+  """Shape only: one x-coordinate per input point, whatever p is (the values are decided by bounded/c11.py
+  batch_add_variants)."""
+  params = {"p": "point", "points": "list[point]"}
+  self_fields = CURVE_FIELDS
+  returns = "list[Optional[int]]"
+  requires = CURVE_REQ + ["wf_point(p)", "forall(k, 0, len(points), wf_point(points[k]))"]
+  raises = {"ArithmeticError": None}
+  ensures = [("C10,C11,C17", "len(result) == len(points)")]
+  loops = {0: dict(invariant=["len(tmp) == len(points)"], types={"tmp": "list[Optional[int]]"}),
+           1: dict(invariant=["len(tmp) == len(points)"], types={"tmp": "list[Optional[int]]"})}
+  var_types = {"tmp": "list[Optional[int]]"}
+  props = ["C10", "C11", "C17"]
 
 
 @contract(f"{E}::EcCurve.PointTable")
 class PointTable:
+  """Index space of the baby-step table, for every n and every curve: the inner loop stores the value i*m + j for
+  every i < len(sequence_high), j < len(sequence_low) with len(sequence_low) == m (the stride), and these index pairs
+  reach every value in [0, n).  That the stored KEY is the x-coordinate of (i*m + j)*base is group arithmetic
+  (bounded/c11.py point_sequence_and_table)."""
+  frame_props = ["C10", "C11", "C17"]
   params = {"base": "point", "n": "int"}
   self_fields = CURVE_FIELDS
-  returns = "ref:XTable"
-  assumed = True
-  assumed_why = "group arithmetic: bounded tier bounded/c11.py point_sequence_and_table"
-  ensures = []
+  returns = "dict[int,int]"
+  requires = CURVE_REQ + ["wf_point(base)"]
+  raises = {"ArithmeticError": None}
+  on_call = {f"{E}::EcCurve.BatchAddX": [
+      "assert [C10,C11,C17] m >= 1 and len(args[1]) == m and len(sequence_low) == m",
+      "assert [C10,C11,C17] im == i * m",
+      # every index x in [0, n) is (x // m) * m + (x % m) with x // m < len(sequence_high)
+      "check [C10,C11,C17] forall(x, 0, n, divmod_def(x, m) and 0 <= idiv(x, m) and idiv(x, m) < len(sequence_high) "
+      "and 0 <= x - idiv(x, m) * m and x - idiv(x, m) * m < len(args[1]))"]}
+  loops = {0: dict(invariant=["True"], types={"res": "dict[int,int]"}),
+           1: dict(invariant=["im == i * m"], types={"res": "dict[int,int]"},
+                   body_end=[("C10,C11,C17", "res[x] == i * m + _i1")])}
+  var_types = {"res": "dict[int,int]"}
+  props = ["C10", "C11", "C17"]
 
 
 @contract(f"{E}::EcCurve.BatchDL")
@@ -182,6 +230,7 @@ class BatchDL:
   self_fields = dict(CURVE_FIELDS, _table="ref:XTable", _table_size="int")
   returns = "list[Optional[int]]"
   requires = CURVE_REQ + ["n >= 1", "len(points) >= 1", "self._table_size >= 0"]
+  raises = {"ArithmeticError": None}    # BatchInverse's internal self-check (reached through PointTable)
   ensures = [("C10", "len(result) == len(points)")]
   caller_ensures = ["len(result) == len(points)",
                     "forall(k, 0, len(result), result[k] is None or points[k][0] is None or "
@@ -201,6 +250,7 @@ class BatchDL:
 
 @contract(f"{E}::EcCurve.ExtendedBatchDL")
 class ExtendedBatchDL:
+  frame_props = ["C02", "C10", "C17"]
   """Soundness over the logarithm view (d * m == x (mod n) when d == inv(m) * x) was attempted deductively; the
   flat-index invariant over all_points (m // num_points, m % num_points, products of uninterpreted logs) is not
   discharged by z3/cvc5 within budget, so the contract is ASSUMED here and decided by the bounded tier
@@ -223,6 +273,7 @@ class BatchDLOfDifferences:
   self_fields = dict(CURVE_FIELDS, _table="ref:XTable", _table_size="int")
   returns = "list[Optional[str]]"
   requires = CURVE_REQ + ["self._table_size >= 0"]
+  raises = {"ArithmeticError": None}    # BatchInverse's internal self-check (reached through PointTable)
   ensures = [("C10", "len(result) == len(points)")]
   caller_ensures = ["len(result) == len(points)"]
   return_hints = [("C10", "implies(defined('negated'), self._table_size >= max_diff and "
